@@ -15,6 +15,7 @@ type Term struct {
 	Bound []Bound // for forall/exists
 	Pat   []*Term // optional :pattern terms for quantifiers
 	size  int
+	hasQ  int8 // 0 unknown, 1 contains a quantifier, 2 does not
 }
 
 type Bound struct{ Name, Sort string }
@@ -204,6 +205,10 @@ func Ite(c, a, b *Term) *Term {
 		}
 		if b.Op == "false" {
 			return And(c, a)
+		}
+		if containsQuantifier(a) || containsQuantifier(b) {
+			// keep quantified branches under a fixed polarity (an ite hides them from skolemisation)
+			return Or(And(c, a), And(Not(c), b))
 		}
 	}
 	return &Term{Op: "ite", Sort: a.Sort, Args: []*Term{c, a, b}}
@@ -632,4 +637,27 @@ func sortedKeys[V any](m map[string]V) []string {
 	}
 	sort.Strings(ks)
 	return ks
+}
+
+// containsQuantifier reports whether t has a quantifier somewhere inside
+// (memoised in the node).
+func containsQuantifier(t *Term) bool {
+	if t.hasQ != 0 {
+		return t.hasQ == 1
+	}
+	r := len(t.Bound) > 0
+	if !r {
+		for _, a := range t.Args {
+			if containsQuantifier(a) {
+				r = true
+				break
+			}
+		}
+	}
+	if r {
+		t.hasQ = 1
+	} else {
+		t.hasQ = 2
+	}
+	return r
 }
